@@ -14,27 +14,15 @@ def specOK (r : Exit × List FsOp) : Bool :=
 def WF (i : Input) : Bool :=
   i.flags != .panic && i.load != .panic && i.gen != .panic && i.writeErr.isNone && i.cleanErr.isNone
 
+/-- no finding region is left for C18: the Clean error and the five panics found by the damaged-input runs were
+    repaired in /repo (63484d4, 58408b2, a51cc44, 329275c, ffe72d1, 83db8cb); their inputs are ordinary cases now -/
 inductive Region where
   | WF
-  | F_panic_valuerecv     -- map: a value-receiver method with a reserved name hits panic("can never happen")
-  | F_panic_unnamed       -- map: reserved method with an unnamed receiver/parameter: recv.Names[0] / param.Names[0]
-  | F_panic_nobody        -- map: reserved method declared without a body: ast.Inspect(nil body)
-  | F_panic_setteriface   -- new -getset: makeGetSet calls Underlying() on a nil type
-  | F_panic_univ          -- rest: testNode dereferences the nil package of an embedded universe type
   deriving DecidableEq, Repr
 
 def Region.str : Region → String
-  | .WF => "WF" | .F_panic_valuerecv => "F_panic_valuerecv" | .F_panic_unnamed => "F_panic_unnamed"
-  | .F_panic_nobody => "F_panic_nobody" | .F_panic_setteriface => "F_panic_setteriface"
-  | .F_panic_univ => "F_panic_univ"
+  | .WF => "WF"
 
-def region (d : Damage) : Region :=
-  match d with
-  | .valueRecv => .F_panic_valuerecv
-  | .manualUnnamed => .F_panic_unnamed
-  | .manualNoBody => .F_panic_nobody
-  | .setterIface => .F_panic_setteriface
-  | .univEmbed => .F_panic_univ
-  | _ => .WF
+def region (_ : Damage) : Region := .WF
 
 end ShootVerif.Phases
